@@ -164,13 +164,16 @@ def encode_text_field(rng, text, fold, prefix):
 
 
 def key_forms(key):
+    """quoted presentations of a table key; the colon must follow the closing delimiter on the same line"""
     forms = []
     for q in ("'", '"'):
-        if quoted_ok(key, q, 2):
+        if quoted_ok(key, q, 2) and len(key) + 3 <= LINE_LIMIT:
             forms.append(q)
     for q in ("'", '"'):
         if triple_ok(key, q):
-            forms.append(q * 3)
+            lines = key.split('\n')
+            if (len(lines) == 1 and len(key) + 7 <= LINE_LIMIT) or (len(lines) > 1 and len(lines[-1]) + 4 <= LINE_LIMIT):
+                forms.append(q * 3)
     return forms
 
 
